@@ -156,6 +156,12 @@ class C17(Prop):
                 yield {"seqs": [{"schema": None, "name": form, "opts": opts}], "context": i % 4, "layout": None}
                 yield {"seqs": [{"schema": form, "name": "sq", "opts": opts}], "context": i % 4, "layout": None}
 
+        # the option words themselves as the name part of a schema-qualified sequence (app.cache, sales.order): a word after a dot is a name
+        for i, w in enumerate(["increment", "start", "cache", "minvalue", "maxvalue", "no", "by", "with", "order", "noorder", "cycle", "sequence"]):
+            for form in (w, w.capitalize(), w.upper()):
+                opts = [["start", i], ["cache_n", 3]] if i % 2 else [["increment_by", i + 1], ["noorder"]]
+                yield {"seqs": [{"schema": "app", "name": form, "opts": opts}], "context": i % 4, "layout": None}
+
     def fixed_cases(self):
         return [
             ("readme", {"seqs": [{"schema": "dev", "name": "incremental_ids", "opts": [["increment", 10], ["start", 0], ["minvalue", 0], ["maxvalue", 9223372036854775807], ["cache_n", 1]]}], "context": 0, "layout": None}),
